@@ -1073,6 +1073,15 @@ impl SendKind {
             future,
         } = response;
 
+        // 1xx, 204, and 304 responses end with the head: a client doesn't read a body after
+        // them, so the bytes of one would be taken for the start of the next response.
+        if response.status().is_informational()
+            || response.status() == StatusCode::NO_CONTENT
+            || response.status() == StatusCode::NOT_MODIFIED
+        {
+            *response.body_mut() = Bytes::new();
+        }
+
         let overriden_len = future.as_ref().map(|(_, len)| len.as_ref().copied());
         if let Ok(data) = &data {
             match data.apply_to_response(&mut response, overriden_len.flatten(), future.is_some()) {
